@@ -274,7 +274,7 @@ Section VARun.
       assert (Hbody : (body = [] \/ body = [OHDropped k]) /\ s_dropped s1 = s_dropped s).
       { unfold drop_handler, guard_cancel in EE. destruct (nth_error (s_handlers s) k) as [hr|]; [|injection EE as <- <-; auto].
         destruct (add_permit_shape s) as (_ & _ & _ & _ & _ & _ & _ & _ & P9 & _). cbv zeta in P9.
-        destruct (h_st hr); injection EE as <- <-; sproj; rewrite ?P9; destruct (s_dropped s); sproj; rewrite ?P9; auto. }
+        destruct (h_st hr); injection EE as <- <-; sproj; rewrite ?P9; destruct (s_dropped s) eqn:ED; sproj; rewrite ?P9, ?ED; auto. }
       destruct Hbody as (Hb & Hd).
       assert (Hpl : forallb plain body = true) by (destruct Hb as [->| ->]; reflexivity).
       assert (Hfst : fst (split_gauges (body ++ gauges s1)) = body).
@@ -290,7 +290,7 @@ Section VARun.
       destruct (HT EH) as (HI & _). rewrite (ostep_nonpoll c (@ODropYielded C k) o _ EH I).
       assert (Hbody : body = [] /\ s_dropped s1 = s_dropped s).
       { unfold drop_yielded, guard_cancel in EE. destruct (nth_error (s_handlers s) k) as [[h i stt]|]; [|injection EE as <- <-; auto].
-        destruct stt; injection EE as <- <-; sproj; destruct (s_dropped s); sproj; auto. }
+        destruct stt; injection EE as <- <-; sproj; destruct (s_dropped s) eqn:ED; sproj; rewrite ?ED; auto. }
       destruct Hbody as (-> & Hd). cbn [app]. rewrite fst_split_nil'. cbn [fold_left].
       destruct (guard_dropped_va k PFresh o HV) as (A & B).
       apply (va_tail _ s1 []); auto. rewrite B, Hd. exact (u_dropped _ _ HI).
